@@ -158,6 +158,13 @@ func callArgs(in ssa.Instruction) []ssa.Value {
 	}
 	if f := cc.StaticCallee(); f != nil {
 		if f.Signature.Recv() != nil && len(cc.Args) > 0 {
+			if _, moved := canonRecv[origin(f)]; moved {
+				all := bargs(f, cc.Args, true)
+				if baselineHasRecv(f) && len(all) > 0 {
+					return all[1:]
+				}
+				return all
+			}
 			return bargs(f, cc.Args[1:], false)
 		}
 		if _, isClosure := cc.Value.(*ssa.MakeClosure); !isClosure {
@@ -1157,4 +1164,64 @@ func naturalLoop(h *ssa.BasicBlock) map[*ssa.BasicBlock]bool {
 func dominatesViaGuard(h, b *ssa.BasicBlock) bool {
 	id := h.Idom()
 	return id != nil && id.Dominates(b) && blockReachable(h, b)
+}
+
+// cfgPath is one acyclic entry->exit path of a function: its blocks, the branch decisions taken and the exit.
+type cfgPath struct {
+	Blocks []*ssa.BasicBlock
+	Conds  []condTaken
+	Exit   ssa.Instruction
+}
+
+type condTaken struct {
+	If    *ssa.If
+	Truth bool
+}
+
+// enumPaths lists the acyclic entry->return/panic paths of a (small) function; ok is false when there are more than max.
+func enumPaths(fn *ssa.Function, max int) (paths []cfgPath, ok bool) {
+	ok = true
+	var walk func(b *ssa.BasicBlock, onPath map[*ssa.BasicBlock]bool, blocks []*ssa.BasicBlock, conds []condTaken)
+	walk = func(b *ssa.BasicBlock, onPath map[*ssa.BasicBlock]bool, blocks []*ssa.BasicBlock, conds []condTaken) {
+		if onPath[b] || !ok {
+			return
+		}
+		if len(paths) > max {
+			ok = false
+			return
+		}
+		onPath[b] = true
+		defer delete(onPath, b)
+		blocks = append(blocks, b)
+		switch x := b.Instrs[len(b.Instrs)-1].(type) {
+		case *ssa.Return, *ssa.Panic:
+			paths = append(paths, cfgPath{Blocks: append([]*ssa.BasicBlock(nil), blocks...), Conds: append([]condTaken(nil), conds...), Exit: x})
+		case *ssa.If:
+			walk(b.Succs[0], onPath, blocks, append(append([]condTaken(nil), conds...), condTaken{x, true}))
+			walk(b.Succs[1], onPath, blocks, append(append([]condTaken(nil), conds...), condTaken{x, false}))
+		default:
+			for _, s := range b.Succs {
+				walk(s, onPath, blocks, conds)
+			}
+		}
+	}
+	if len(fn.Blocks) > 0 {
+		walk(fn.Blocks[0], map[*ssa.BasicBlock]bool{}, nil, nil)
+	}
+	return paths, ok
+}
+
+// instrsOf: the instructions executed on the path, in order.
+func (p cfgPath) instrs() []ssa.Instruction {
+	var out []ssa.Instruction
+	for _, b := range p.Blocks {
+		out = append(out, b.Instrs...)
+	}
+	return out
+}
+
+// asInstr: the instruction that defines v (nil for parameters, constants, ...).
+func asInstr(v ssa.Value) ssa.Instruction {
+	in, _ := v.(ssa.Instruction)
+	return in
 }
